@@ -49,6 +49,7 @@ class BinaryFileReader:
 
         # Read sections that contain definitions
         self._definitions = []
+        self._last_section_id = 0
         while True:
             try:
                 section_id = self.read_byte()
@@ -58,6 +59,8 @@ class BinaryFileReader:
             section_data = self.read_length_prefixed_bytes()
             with self.push_data(section_data):
                 self.read_section(section_id)
+            if section_id:
+                self._last_section_id = section_id
 
         logger.info(
             "Loaded WASM module from binary"
@@ -431,7 +434,10 @@ class BinaryFileReader:
         """Read a custom definition."""
         name = self.read_str()
         data = self.read_exactly()
-        return components.Custom(name, data)
+        definition = components.Custom(name, data)
+        # Remember behind which section it was found:
+        definition.position = self._last_section_id
+        return definition
 
 
 # This is a list of functions to read specific argument types:
